@@ -459,7 +459,10 @@ func c24LNDClient(a *c24Acc, thorough bool) {
 			[]c24Chan{{100, 1, 1, c24Peer, big, true}, {100, 1, 0, c24Peer, big, false}},
 		)
 	}
-	scids := []string{"100x1x0", "100:1:0", "200x2x0", "200:2:0", "100x1x1", "300x3x0", "", "100x1"}
+	scids := []string{"100x1x0", "100:1:0", "200x2x0", "200:2:0", "100x1x1", "300x3x0", "", "100x1",
+		// ids that are NOT a channel of the table but collapse onto 100x1x0 when their components are packed into
+		// 24 / 24 / 16 bits without a range check (output 2^16, tx index 2^24+1 spilling into the height, height 2^24+100)
+		"100x1x65536", "99:16777217:0", "16777316x1x0"}
 	dests := []string{c24Peer, c24Other}
 	msats := []int64{1, 1_000_000_000}
 	cltvs := []int64{-1, 9, 29, 30, 504}
